@@ -368,3 +368,36 @@ From PLV Require Import Alg.Poly Lin.Vec Lin.PVec.
 Import ListNotations.
 Open Scope Q_scope.
 """
+
+
+# ----------------------------------------------------------------------------- exact reference circuits
+import math as _math
+PYTH = [(3, 4, 5), (4, 3, 5), (5, 12, 13), (12, 5, 13), (8, 15, 17), (15, 8, 17), (7, 24, 25), (24, 7, 25), (20, 21, 29)]
+
+
+def pyth_angle(rng, half=True):
+    """an angle theta such that cos(theta/2), sin(theta/2) are rational (so every standard rotation matrix has
+    Gaussian-rational entries), or a multiple of pi/4"""
+    if rng.random() < 0.25:
+        return rng.choice([0.0, _math.pi / 2, _math.pi, -_math.pi / 2, 3 * _math.pi / 2, 2 * _math.pi, -_math.pi])
+    p, q, r = rng.choice(PYTH)
+    s = rng.choice([1, -1])
+    return 2 * _math.atan2(s * q, p)
+
+
+def exact_circuit_gallina(ops, wire_order):
+    """Gallina list of gates (constant matrices over Q(zeta_8)) for numeric operators `ops`; raises NotExtractable"""
+    install_patches()
+    set_cfg(8, 8, 0)
+    gates = []
+    for o in ops:
+        if o.name in ("Barrier", "Snapshot", "WireCut"):
+            continue
+        if o.name == "GlobalPhase" or len(o.wires) == 0:
+            S = op_matrix_sym(o) if len(o.wires) == 0 else op_matrix_sym(o)
+            gates.append(g_gate([wire_order.index(w) for w in o.wires], S))
+            continue
+        M = np.asarray(qp.matrix(o, wire_order=list(o.wires)))
+        S = mat_to_sym(M)
+        gates.append(g_gate([wire_order.index(w) for w in o.wires], S))
+    return "[" + ";\n ".join(gates) + "]"
